@@ -85,3 +85,8 @@ Proof. intros. unfold ipow. apply ipow_fuel_R. lia. Qed.
 
 Example ipow_ex : ipow 1%Z Z.mul 8 2%Z = 256%Z.
 Proof. reflexivity. Qed.
+
+Lemma ipow_spec : forall n,
+  (forall v : Z, ipow 1%Z Z.mul n v = (v ^ Z.of_nat n)%Z) /\
+  (forall v : R, ipow 1%R Rmult n v = pow v n).
+Proof. intro n; split; [exact (ipow_spec_Z n) | exact (ipow_spec_R n)]. Qed.
